@@ -867,8 +867,8 @@ class Design:
         if len(kinds) > 1:
             raise VhdlTypeError(f"concatenation of {ka} and {kb}")
         if not kinds:
-            if ka == "elem" and kb == "elem":
-                raise VhdlTypeError("concatenation of two std_logic values is ambiguous here")
+            # std_logic & std_logic (or with a string literal): the array type comes from the context
+            # (assignment target / conversion operand); keep it untyped like a string literal
             kind = None
         else:
             kind = kinds.pop()
